@@ -3,12 +3,12 @@
    protocol can reach); (2) the SECTION TRACKER — counters, lazy section offsets, seek — refines
    the counting machine of Spec/LinearPass.v for every sequence of sequential reads and seeks,
    whatever the offsets of the items are; (3) the parsers are the spec's items; (4) COMPOSITION:
-   on every message the linear pass parses completely, every allowed sequence of question reads,
-   record reads and seeks to known sections returns exactly the prescribed items and ends in the
-   prescribed state.
+   every allowed sequence of question reads, record reads and seeks to known sections over items
+   the linear pass parses completely returns exactly the prescribed items and ends in the
+   prescribed state; this holds on EVERY message for the items that parse, and reading the first
+   item that does not parse fails and exhausts the reader.
    Not proved (decided by the scripts stream, where the extracted abstract reader is the oracle,
-   DESIGN.md 5 C09 and 12): the composition on messages the pass parses only partly, the
-   owned/typed flavours inside whole scripts, seek-by-skipping. *)
+   DESIGN.md 5 C09 and 12): the owned/typed flavours inside whole scripts, seek-by-skipping. *)
 From RsdnsModel Require Import Base Cursor Names Labels Header Tracker RData Reader.
 From RsdnsModel.Spec Require Import LinearPass.
 From RsdnsModel.Proofs Require Import Latch ReaderTotal LatchFull TrackerRefine SpecExec ParseSpec ReaderRefine.
@@ -133,41 +133,67 @@ Theorem C09_record_parse_is_spec : forall msg c p s, whole msg c ->
   end.
 Proof. exact marker_is_record_at. Qed.
 
-(* ---- the reader refines the linear pass (composition) ----
-   For a message that the linear pass parses completely ([chain]: every announced question and
-   record header parses where the previous item ended, every record's data lies inside the message;
-   Theorem C09_linear_pass_gives_chains derives this from linear_of), and EVERY sequence of
-   documented operations allowed by the pass — read a question (borrowed flavour), read a record
-   (record_marker + skip_record_data), seek to a section whose offset is known: every call
-   succeeds, returns exactly the prescribed item ([expected]: the question / record header of the
-   pass at that index, with its offsets, fields and section), and the reader ends in the state
-   the pass prescribes ([RState]: cursor at the offset of item idx', tracker representing
-   (idx', hw')). *)
-Theorem C09_reader_refines : forall msg, lenN msg <= 65535 -> 12 <= lenN msg ->
-  forall nq an ns ar qs rs e1 e2,
-  chain msg question_at (fun _ => True) 12 qs e1 ->
-  chain msg record_at (fun it => a_data_ok it = true) e1 rs e2 ->
-  lenN qs = nq -> lenN rs = an + ns + ar -> nq <= 65535 -> an <= 65535 -> ns <= 65535 -> ar <= 65535 ->
+(* ---- the reader refines the linear pass (composition), on EVERY message ----
+   [parsed msg nq an ns ar qs rs e1 e2] (Proofs/ReaderRefine.v): msg (12..65535 octets) announces nq
+   questions and an/ns/ar records; qs are the questions that parse back to back from offset 12 up to
+   e1, rs the records that parse completely (header and RDLENGTH octets inside the message) back to
+   back from e1 up to e2; the lists are complete or a prefix.  Theorem C09_linear_pass_parses derives
+   this from the code-blind linear pass for every message, and says what stands at e2 when the pass
+   stopped early.
+   For EVERY sequence of documented operations allowed by the pass — read a question (borrowed
+   flavour), read a record (record_marker + skip_record_data), seek to a section whose offset is
+   known — that reads parsed items only ([within]; automatic when everything parses,
+   C09_complete_is_within): every call succeeds, returns exactly the prescribed item ([expected]:
+   the question / record header of the pass at that index, with its offsets, fields and section),
+   and the reader ends in the state the pass prescribes ([RState]: cursor at the offset of item
+   idx', tracker representing (idx', hw')).  Reading the first item that does NOT parse fails and
+   exhausts the reader (then C09_stays_exhausted applies): a question or record header that does
+   not parse fails in the header call; a record header that parses but whose data leaves the
+   message is returned exactly, and its data call fails. *)
+Theorem C09_reader_refines : forall msg nq an ns ar qs rs e1 e2, parsed msg nq an ns ar qs rs e1 e2 ->
   forall ops r idx hw idx' hw',
   RState msg nq an ns ar qs rs e2 r idx hw -> allowed nq an ns ar ops idx hw = Some (idx', hw') ->
+  within nq an ns ar qs rs ops idx hw ->
   exists r', RState msg nq an ns ar qs rs e2 r' idx' hw' /\ prescribed msg nq an ns ar qs rs r' ops r idx hw.
-Proof. exact reader_refines. Qed.
+Proof. exact reader_refines_any. Qed.
+
+Theorem C09_complete_is_within : forall nq an ns ar qs rs, lenN qs = nq -> lenN rs = an + ns + ar ->
+  forall ops idx hw res, allowed nq an ns ar ops idx hw = Some res -> within nq an ns ar qs rs ops idx hw.
+Proof. exact allowed_within. Qed.
+
+Theorem C09_unparsable_question_fails : forall msg nq an ns ar qs rs e1 e2, parsed msg nq an ns ar qs rs e1 e2 ->
+  forall r idx hw, RState msg nq an ns ar qs rs e2 r idx hw ->
+  idx = lenN qs -> idx < nq -> question_at msg e2 = None ->
+  exists r' e, rd_question msg false true r = (r', Err e) /\ r_done r' = true.
+Proof. exact fail_question_any. Qed.
+
+Theorem C09_unparsable_record_fails : forall msg nq an ns ar qs rs e1 e2, parsed msg nq an ns ar qs rs e1 e2 ->
+  forall r idx hw, RState msg nq an ns ar qs rs e2 r idx hw ->
+  lenN qs = nq -> idx = nq + lenN rs -> lenN rs < an + ns + ar ->
+  match record_at msg e2 with
+  | None => exists r' e, rd_marker msg r = (r', Err e) /\ r_done r' = true
+  | Some it =>
+    a_data_ok it = false ->
+    let mk := mkMarker e2 (a_type_off it) (a_type it) (a_class it) (a_ttl it) (a_rdlen it) (section_of (lin nq an ns ar) (idx - nq)) in
+    exists r1 r2 e, rd_marker msg r = (r1, Ok (OMarker mk)) /\ rd_skip_data mk r1 = (r2, Err e) /\ r_done r2 = true
+  end.
+Proof. exact fail_record_any. Qed.
 
 (* the state right after header(): a whole-message cursor at offset 12 and the tracker built from
    the header represent (0, 0) *)
-Theorem C09_reader_start : forall msg, lenN msg <= 65535 -> 12 <= lenN msg ->
-  forall nq an ns ar qs rs e1 e2,
-  chain msg question_at (fun _ => True) 12 qs e1 ->
-  chain msg record_at (fun it => a_data_ok it = true) e1 rs e2 ->
-  lenN qs = nq -> lenN rs = an + ns + ar -> nq <= 65535 -> an <= 65535 -> ns <= 65535 -> ar <= 65535 ->
+Theorem C09_reader_start : forall msg nq an ns ar qs rs e1 e2, parsed msg nq an ns ar qs rs e1 e2 ->
   forall h c, h_qd h = nq -> h_an h = an -> h_ns h = ns -> h_ar h = ar -> whole msg c -> pos c = 12 ->
   RState msg nq an ns ar qs rs e2 (mkReader c (tr_set tr_default h) false) 0 0.
-Proof. exact rstate_start. Qed.
+Proof. exact rstate_start_any. Qed.
 
-(* a message that the linear pass parses completely gives the chains *)
-Theorem C09_linear_pass_gives_chains : forall msg l, linear_of msg = Some l ->
-  lenN (l_qs l) = l_nq l -> lenN (l_rs l) = nrec l -> Forall (fun it => a_data_ok it = true) (l_rs l) ->
-  lenN msg <= 65535 /\ 12 <= lenN msg /\ l_nq l <= 65535 /\ l_an l <= 65535 /\ l_ns l <= 65535 /\ l_ar l <= 65535 /\
-  exists e1 e2, chain msg question_at (fun _ => True) 12 (l_qs l) e1 /\
-                chain msg record_at (fun it => a_data_ok it = true) e1 (l_rs l) e2.
-Proof. exact linear_chains. Qed.
+(* every message the linear pass looks at (12..65535 octets) is [parsed] with the questions of the
+   pass and the records of the pass whose data fits; if fewer questions parse than announced, no
+   question stands at e2; if all questions but fewer records than announced parse, what stands at
+   e2 is no record header or one whose data leaves the message *)
+Theorem C09_linear_pass_parses : forall msg l, linear_of msg = Some l ->
+  let rs := filter a_data_ok (l_rs l) in
+  exists e1 e2, parsed msg (l_nq l) (l_an l) (l_ns l) (l_ar l) (l_qs l) rs e1 e2 /\
+    (lenN (l_qs l) < l_nq l -> question_at msg e2 = None) /\
+    (lenN (l_qs l) = l_nq l -> lenN rs < nrec l ->
+     match record_at msg e2 with Some it => a_data_ok it = false | None => True end).
+Proof. exact linear_parsed. Qed.
